@@ -242,6 +242,46 @@ NO_INVOKE_FORMS = [
 ]
 
 
+def caught_error_programs():
+    """Every way an engine-raised error can reach a script catch clause (or a finally, a callback, a nested evaluator): whatever
+    the catch parameter is bound to must be a JavaScript value - stored, logged and returned so that the sanitizer and the
+    boundary see it."""
+    big_consts = "[" + ", ".join(str(i) for i in range(300)) + "]"
+    big_locals = "var " + ", ".join("v%d = %d" % (i, i) for i in range(300)) + ";"
+    deep = "(" * 3000 + "1" + ")" * 3000
+    triggers = {
+        "eval-too-many-constants": "(0, eval)(%s)" % json.dumps(big_consts),
+        "Function-too-many-constants": "new Function(%s)" % json.dumps("return " + big_consts),
+        "Function-too-many-locals": "new Function(%s)()" % json.dumps(big_locals),
+        "eval-too-deep": "(0, eval)(%s)" % json.dumps(deep),
+        "eval-jump-too-far": "(0, eval)(%s)" % json.dumps("var s = 0; if (s) { " + "s += 1; " * 7000 + "}"),
+        "eval-syntax-error": "(0, eval)('(')", "Function-syntax-error": "new Function('(')", "eval-break-outside-loop": "(0, eval)('break;')",
+        "RegExp-syntax-error": "new RegExp('(')", "RegExp-too-large": "new RegExp('a{99999999}')", "regex-stack": "/(a|b)*c/.test(new Array(5000).join('ab'))",
+        "JSON.parse-error": "JSON.parse('{')", "JSON.stringify-cycle": "var cy = {}; cy.c = cy; JSON.stringify(cy)", "null-member": "null.x", "undefined-call": "undefinedFn()",
+        "not-callable": "(5)()", "array-length": "new Array(-1)", "repeat-negative": "'x'.repeat(-1)", "toFixed-range": "(1).toFixed(1000)", "reduce-empty": "[].reduce(function(){})",
+        "string-too-long": "'abc'.repeat(4294967296)", "array-write-beyond-end": "var aw = [1]; aw[5] = 1", "primitive-write": "(5).p = 1", "new-arrow": "new (() => 1)()",
+        "instanceof-non-callable": "({}) instanceof 5", "in-primitive": "'a' in 5", "getter-throws-host-style": "({get g() { return null.x; }}).g", "typed-array-length": "new Int32Array(-1)",
+        "toString-returns-object": "'' + {toString: function () { return {}; }, valueOf: function () { return {}; }}", "native-depth": "var nd = {get p() { return [1].map(function () { return nd.p; }); }}; nd.p",
+        "throw-from-host-callable": "hostfn.call(null, 1); null.y",
+    }
+    wrappers = {
+        "try-catch": "var caught = 'nothing', box = {}, list = []; try { %s; } catch (e) { caught = e; box.err = e; list.push(e); } log(caught, box, list, typeof caught, String(caught).slice(0, 30)); [caught, box, list]",
+        "in-callback": "var caught = 'nothing'; try { [1].forEach(function () { %s; }); } catch (e) { caught = e; } log(caught, typeof caught); caught",
+        "inner-function-finally": "var caught = 'nothing', fin = 0; function inner() { try { %s; } finally { fin++; } } try { inner(); } catch (e) { caught = e; } log(caught, fin); [caught, fin]",
+        "catch-in-nested-eval": "var caught = (0, eval)(%s); log(caught); caught",
+        "rethrow-chain": "var caught = 'nothing'; try { try { %s; } catch (e1) { throw e1; } } catch (e2) { caught = e2; } log(caught, caught === undefined); caught",
+    }
+    out = []
+    for tn, t in sorted(triggers.items()):
+        for wn, w in sorted(wrappers.items()):
+            if wn == "catch-in-nested-eval":
+                src = w % json.dumps("var c = 'nothing'; try { " + t + "; } catch (e) { c = e; } c")
+            else:
+                src = w % t
+            out.append("// caught-error:%s:%s\n%s" % (tn, wn, src))
+    return out
+
+
 def gen_invocation_prog(rng):
     """Program whose explicit hostfn call sites each pass a unique site id after bumping a script counter."""
     n = rng.randint(1, 6)
@@ -315,6 +355,7 @@ def main(ctx):
         # random programs + closure-heavy programs with the sanitizer on
         progs = [progen.random_program(rng) for _ in range(300 if ctx.quick else 6000)] + \
                 [progen.closure_heavy(rng) for _ in range(100 if ctx.quick else 2000)]
+        progs += caught_error_programs()
         rres = ep.map({"mod": "checks.C03", "fn": "w_probe"}, [{"progs": progs[i:i + 50], "log": True} for i in range(0, len(progs), 50)],
                       batch=1, timeout=600)
         # invocation log programs
